@@ -168,7 +168,8 @@ FieldCore(ctx, f, scope, pef, inMapEntry, x, isExt) ==
       ismapentry == TargetIsMapEntry(f, t)
       \* maps never use delimited encoding
       k1 == IF ~isExt /\ t.kind = KGroup /\ (ismapentry \/ inMapEntry) THEN KMessage ELSE t.kind
-      card == IF ~isExt /\ ef.lr THEN 2 ELSE x.label
+      \* an absent label reads as LABEL_OPTIONAL (the proto2 default of the descriptor field)
+      card == IF ~isExt /\ ef.lr THEN 2 ELSE IF x.label = 0 THEN 1 ELSE x.label
   IN [ef |-> ef, t |-> t, kind |-> k1, card |-> card, ismap |-> ~isExt /\ ismapentry]
 
 \* proto2 groups and their editions translation: text format uses the message name
@@ -286,7 +287,10 @@ MsgView(ctx, f, i) ==
                         parent |-> mc.full, depth |-> mc.depth + 1, root |-> TRUE, syntax |-> f.syntax, ph |-> FALSE, opts |-> "=",
                         synth |-> f.syntax = "proto3" /\ Cardinality(mem) = 1 /\ (\A j \in mem : m.fields[j].p3opt),
                         members |-> Map(memSeq, LAMBDA j : j - 1),
-                        keyed |-> Map(memSeq, LAMBDA j : 1),
+                        \* first-wins: a member is what the keyed lookups of the oneof return iff no earlier member shares a key
+                        keyed |-> Map(memSeq, LAMBDA j : IF \A q \in mem : q < j => (names[q] # names[j] /\ nums[q] # nums[j]
+                                                                                      /\ jsons[q] # jsons[j] /\ texts[q] # texts[j])
+                                                         THEN 1 ELSE 0),
                         feat |-> NoFS]],
       req |-> Map(SelectSeq([j \in 1..n |-> j], LAMBDA j : j \in req), LAMBDA j : m.fields[j].num),
       reqp |-> [j \in 1..n |-> [n |-> m.fields[j].num, has |-> \E q \in req : m.fields[q].num = m.fields[j].num]],
@@ -362,4 +366,36 @@ ViewsWith(ctx, f) ==
    svcs |-> [i \in 1..Len(f.svcs) |-> SvcView(ctx, f, i)]]
 
 Views(f, allow) == ViewsWith(Ctx(f, allow), f)
+
+\* ---------------------------------------------------------------- the proto that ToFileDescriptorProto gives back (C34)
+\* Documented normalisation: references become absolute (placeholders of relative references stay relative), an
+\* omitted type is filled in from the resolved target, extension JSON names are the camel-cased field names;
+\* everything else is preserved.
+AbsRef(t, full, ph, ref) == IF full = "" THEN ref ELSE IF ph /\ ~IsAbsolute(ref) THEN ref ELSE "." \o full
+NormalField(ctx, f, scope, pef, inMapEntry, x, isExt) ==
+  LET c == FieldCore(ctx, f, scope, pef, inMapEntry, x, isExt)
+      tfull == IF c.t.msg # "" THEN c.t.msg ELSE c.t.enum
+      tph == c.t.msgph \/ c.t.enumph
+      ee == FindKind(ctx, f, scope, x.extendee, "m")
+      k == IF x.type = 0 THEN c.t.kind ELSE x.type
+  IN [x EXCEPT !.tname = IF x.tname = "" THEN "" ELSE AbsRef(c.t, tfull, tph, x.tname),
+               !.type = k,
+               !.label = IF x.label = 0 THEN 1 ELSE x.label,
+               !.json = IF isExt /\ x.hj THEN JSONCamel(x.name) ELSE x.json,
+               !.extendee = IF isExt THEN AbsRef(ee, ee.full, ee.ph, x.extendee) ELSE x.extendee]
+NormalWith(ctx, f) ==
+  [f EXCEPT
+     !.msgs = [i \in 1..Len(f.msgs) |->
+                 [f.msgs[i] EXCEPT !.fields = [j \in 1..Len(f.msgs[i].fields) |->
+                     NormalField(ctx, f, ctx.mc[i].full, ctx.mc[i].ef, f.msgs[i].mapentry, f.msgs[i].fields[j], FALSE)]]],
+     !.exts = [i \in 1..Len(f.exts) |->
+                 NormalField(ctx, f, ScopeFull(f, ctx.mc, f.exts[i].parent), ScopeEF(ctx.fef, ctx.mc, f.exts[i].parent), FALSE, f.exts[i], TRUE)],
+     !.svcs = [i \in 1..Len(f.svcs) |->
+                 [f.svcs[i] EXCEPT !.methods = [j \in 1..Len(f.svcs[i].methods) |->
+                     LET y == f.svcs[i].methods[j]
+                         full == Join(f.pkg, f.svcs[i].name)
+                         tin == FindKind(ctx, f, full, y.in, "m")
+                         tout == FindKind(ctx, f, full, y.out, "m")
+                     IN [y EXCEPT !.in = AbsRef(tin, tin.full, tin.ph, y.in), !.out = AbsRef(tout, tout.full, tout.ph, y.out)]]]]]
+Normal(f, allow) == NormalWith(Ctx(f, allow), f)
 =============================================================================
